@@ -832,7 +832,16 @@ class FakeM(object):
 
 def isolated(fn):
     """Run fn() in a forked child (memory-unsafe candidates); -> ('ok', picklable result) | ('died', reason).
-    On the ASan flavour the child's sanitizer reports are returned as result['asan']."""
+    On the ASan flavour the child's sanitizer reports are returned as result['asan'].  A child that ran into its
+    20 s alarm is retried (twice): a deterministic hang reproduces, a starved child on a loaded machine does not."""
+    for attempt in range(3):
+        how, res = _isolated_once(fn)
+        if not (how == 'died' and res == 'killed by signal 14'):
+            break
+    return how, res
+
+
+def _isolated_once(fn):
     import os, pickle, signal, gc
     from mc import asan
     rd, wr = os.pipe()
